@@ -1143,6 +1143,15 @@ int vorbis_encode_ctl(vorbis_info *vi,int number,void *arg){
           if(ai->bitrate_limit_reservoir_bits < 0)
             return OV_EINVAL;
 
+          /* an empty reservoir switches the rate manager off
+             (vorbis_bitrate_init), so hard limits requested along with
+             it would silently never be enforced */
+          if(ai->management_active &&
+             ai->bitrate_limit_reservoir_bits == 0 &&
+             (ai->bitrate_limit_min_kbps>0 ||
+              ai->bitrate_limit_max_kbps>0))
+            return OV_EINVAL;
+
           if(!(ai->bitrate_limit_reservoir_bias >= 0. &&
                ai->bitrate_limit_reservoir_bias <= 1.))
             return OV_EINVAL;
